@@ -311,6 +311,7 @@ def check_variants(ctx):
     from pyunicorn.timeseries.inter_system_recurrence_network import \
         InterSystemRecurrenceNetwork
     from pyunicorn.timeseries.recurrence_network import RecurrenceNetwork
+    from pyunicorn.timeseries.recurrence_plot import RecurrencePlot
     rng = ctx.rng
     with warnings.catch_warnings():
         warnings.simplefilter("ignore")
@@ -439,6 +440,40 @@ def check_variants(ctx):
                 ctx.violation("CrossRecurrencePlot.recurrence_matrix",
                               "differs from (distance < threshold)",
                               dict(key, y=y2.tolist()), {})
+            # data of large magnitude (counts, time stamps): the distances
+            # are sums of exactly representable binary64 terms; a kernel that
+            # narrows a term rounds it
+            xb = np.array([[float(rng.randrange(-2 ** 27, 2 ** 27) | 1)
+                            for _ in range(x.shape[1])]
+                           for _ in range(rng.randint(2, 6))])
+            yb = np.array([[float(rng.randrange(-2 ** 27, 2 ** 27) & ~1)
+                            for _ in range(x.shape[1])]
+                           for _ in range(rng.randint(2, 6))])
+            crb = CrossRecurrencePlot(xb, yb, metric=m, threshold=1.0,
+                                      silence_level=3)
+            Db = np.asarray(crb.distance_matrix(m), float)
+            # (the classes may store the series in single precision: the
+            # reference is computed from the states the object holds)
+            wantD = ref_dist(np.asarray(crb.x_embedded, float),
+                             np.asarray(crb.y_embedded, float), m)
+            if not np.allclose(Db, wantD, rtol=4e-16 * xb.shape[1], atol=0):
+                ctx.violation("CrossRecurrencePlot.distance_matrix",
+                              "is not the " + m + " distance in binary64 "
+                              "(relative error %.2g)" % float(
+                                  (np.abs(Db - wantD)
+                                   / np.maximum(wantD, 1)).max()),
+                              {"x": xb.tolist(), "y": yb.tolist(),
+                               "metric": m}, {"large": True})
+            rpb = RecurrencePlot(xb, metric=m, threshold=1.0,
+                                 silence_level=3)
+            Db = np.asarray(rpb.distance_matrix(m), float)
+            eb = np.asarray(rpb.embedding, float)
+            wantD = ref_dist(eb, eb, m)
+            if not np.allclose(Db, wantD, rtol=4e-16 * xb.shape[1], atol=0):
+                ctx.violation("RecurrencePlot.distance_matrix",
+                              "is not the " + m + " distance in binary64",
+                              {"x": xb.tolist(), "metric": m},
+                              {"large": True})
             # inter-system network with and without embedding
             xs, ys = series(rng, rng.randint(4, 9), 1), \
                 series(rng, rng.randint(4, 9), 1)
